@@ -685,6 +685,16 @@ R('outerjoin', 2,
   [lambda e, w: e.outerjoin(w.s[0], w.s[1], key='a'),
    lambda e, w: e.outerjoin(w.s[0], w.s[1], key='a', buffersize=2,
                             cache=False)], 'transform.joins', temp=True)
+R('join-natural', 2,
+  [lambda e, w: e.join(e.cut(w.s[0], 'a', 'b'), e.cut(w.s[1], 'a', 'c')),
+   lambda e, w: e.leftjoin(e.cut(w.s[0], 'a', 'b'), e.cut(w.s[1], 'a', 'c'),
+                           buffersize=2),
+   lambda e, w: e.outerjoin(e.cut(w.s[0], 'a', 'b'),
+                            e.cut(w.s[1], 'a', 'c')),
+   lambda e, w: e.antijoin(e.cut(w.s[0], 'a', 'b'), e.cut(w.s[1], 'a', 'c')),
+   lambda e, w: e.lookupjoin(e.cut(w.s[0], 'a', 'b'),
+                             e.cut(w.s[1], 'a', 'c'))],
+  'transform.joins', temp=True, hdr_ctor=True)
 R('crossjoin', 2, [lambda e, w: e.crossjoin(w.s[0], w.s[1]),
                    lambda e, w: e.crossjoin(w.s[0], w.s[1], prefix=True)],
   'transform.joins')
